@@ -133,6 +133,7 @@ class Node:
         self.pvar = None
         self.via: List[tuple] = []
         self.fragcond = False
+        self.mixed_cond = False
         self.entries: List[tuple] = []
         ctx.nodes.append(self)
 
@@ -267,6 +268,7 @@ def build(ctx: Ctx, typ, entries, path, live) -> Node:
                 p = ctx.fresh("p", "bool")
                 sub = build(ctx, ftype, ents, path + (rt.name, key), z3.And(live, node.is_obj(), node.rt == i, p))
                 sub.cond, sub.fname, sub.parent, sub.pvar = pres_cond, fname, node, p
+                sub.mixed_cond = any(c is None for c in conds) and any(c is not None for c in conds)
                 sub.via = [e[2] for e in ents]
                 sub.fragcond = any(e[3] for e in ents)
                 var[key] = (p, pres_cond, sub, ftype, fname)
